@@ -119,6 +119,9 @@ func runC10Jobs(c *Ctx, jobs []*c10Job) error {
 		if j.Dropped != "" {
 			if j.Res.Exit == 0 {
 				c.Inconclusive(j.Name + ": " + j.Dropped)
+			} else if hasReservedTokenName(j.G) {
+				// INVALID / the end-of-input marker as a grammar symbol: refusing the grammar is the correct outcome
+				c.Add("grammars_with_reserved_spelling_refused", 1)
 			} else {
 				c.Violation(&Witness{Kind: "c10", Grammar: j.G, Flags: j.Flags, Strs: []string{j.mode}, Note: fmt.Sprintf("gocc refuses a well-formed grammar (exit %d): %s", j.Res.Exit, trunc(j.Res.Stdout+j.Res.Stderr, 300))})
 			}
@@ -168,6 +171,9 @@ func runC10Jobs(c *Ctx, jobs []*c10Job) error {
 		}
 	}
 	if len(cases) == 0 {
+		if n, _ := c.extra["grammars_with_reserved_spelling_refused"].(int); n > 0 {
+			return nil
+		}
 		return fmt.Errorf("no case could be built")
 	}
 	results, err := c.RunCases(bin, cases, 1, nil)
@@ -312,6 +318,20 @@ func checkTokMap(j *c10Job, r *DResult, typeOf map[string]map[string]int) string
 		}
 	}
 	return ""
+}
+
+func hasReservedTokenName(g *gram.Grammar) bool {
+	for _, s := range g.SyntaxTerminals() {
+		if s.Name == "INVALID" || s.Name == model.NameEOF {
+			return true
+		}
+	}
+	for _, h := range g.Heads() {
+		if h == "INVALID" {
+			return true
+		}
+	}
+	return false
 }
 
 func first(s []string) string {
